@@ -282,6 +282,8 @@ def any_profile(reopen_ok=False, weights=None, with_manydirs=False):
         table['reloctwins'] = reloctwins(reopen_ok=reopen_ok)
     if 'twoboots' in w:
         table['twoboots'] = twoboots(reopen_ok=reopen_ok)
+    if 'linktwins' in w:
+        table['linktwins'] = linktwins(reopen_ok=reopen_ok)
     if 'readd' in w:
         table['readd'] = readd(reopen_ok=reopen_ok)
     if 'symcomps' in w:
@@ -417,6 +419,31 @@ def samename(cfg=None, reopen_ok=True):
         body_choices += [reopen, reopen]
     body = st.lists(st.one_of(*body_choices), min_size=6, max_size=24)
     return program(c, st.builds(lambda a, b, t, l, x: a + b + t + l + x, dirs, files, twins, st.lists(lnk, min_size=2, max_size=5), body))
+
+
+def linktwins(cfg=None, reopen_ok=True):
+    """The everyday hard link, then its removal: a file in one directory, a link to it under the *same* name in another
+    directory (same namespace), optionally a reopen, the later name removed again with rm_hard_link, then an edit that moves
+    file data (a new directory), a write.  Anything that tells the two records apart by their fields instead of by what they
+    are confuses them here."""
+    c = cfg if cfg is not None else cfg_st(joliet=st.sampled_from([3, None, None]), udf=st.sampled_from([False, False, True]))
+
+    def build(a, b, files, k, lnk, mid, which, shift, tail):
+        ops = [dict(a, d=0, reuse=0), dict(b, d=0, reuse=0)]
+        ops += [dict(f, d=1, reuse=0) for f in files]                       # files in the first directory
+        ops.append(dict(lnk, b=k % len(files), j=0, to=0, d=2, reuse=7, symsrc=0))      # ... one of them also in the second, same name
+        ops += mid
+        ops.append({'k': 'rm_link', 'b': k % len(files), 'j': which})        # sorted names: the first directory's comes first
+        ops += shift
+        ops.append({'k': 'write'})
+        return ops + tail
+    F = add_fp(length=st.sampled_from([300, 2049, 5000, 7000]), file=st.just(False), ns=st.sampled_from([7, 7, 1]))
+    mids = [st.just([]), st.just([{'k': 'write'}]), st.just([{'k': 'force'}])]
+    if reopen_ok:
+        mids += [st.just([{'k': 'reopen'}]), st.just([{'k': 'reopen'}])]
+    shift = st.lists(st.one_of(add_dir(d=st.just(0)), add_dir(d=st.just(0)), add_fp(length=SMALL_LEN, d=st.just(0))), min_size=1, max_size=2)
+    tail = st.lists(st.one_of(rm_file, add_fp(length=SMALL_LEN), query, add_dir(d=st.just(0))), min_size=0, max_size=3)
+    return program(c, st.builds(build, add_dir(), add_dir(), st.lists(F, min_size=1, max_size=3), I, add_link, st.one_of(*mids), st.sampled_from([1, 1, 0]), shift, tail))
 
 
 def biglinks(cfg=None, reopen_ok=True):
